@@ -89,17 +89,12 @@ func buildExprs(exprs []Expression, builder Builder, joinCond string) {
 			switch v := expr.(type) {
 			case OrConditions:
 				if len(v.Exprs) == 1 {
-					if e, ok := v.Exprs[0].(Expr); ok {
-						sql := strings.ToUpper(e.SQL)
-						wrapInParentheses = containsAndOr(sql)
-					}
+					// a raw condition with positional or with named arguments
+					wrapInParentheses = rawNeedsParentheses(v.Exprs[0])
 				}
 			case AndConditions:
 				if len(v.Exprs) == 1 {
-					if e, ok := v.Exprs[0].(Expr); ok {
-						sql := strings.ToUpper(e.SQL)
-						wrapInParentheses = containsAndOr(sql)
-					}
+					wrapInParentheses = rawNeedsParentheses(v.Exprs[0])
 				}
 			case Expr:
 				sql := strings.ToUpper(v.SQL)
